@@ -88,6 +88,12 @@ def random_shell(rng, icenter, lmax=4, pure_prob=0.5, contraction="segmented", n
     return make_shell(icenter, angmoms, kinds, exps, coeffs)
 
 
+def shuffle_primitives(rng, sh):
+    """The same shell with its primitives listed in a random order (the same functions)."""
+    order = rng.permutation(sh.nexp)
+    return make_shell(sh.icenter, sh.angmoms, sh.kinds, sh.exponents[order], sh.coeffs[order])
+
+
 def make_basis(shells, conventions):
     from iodata.basis import MolecularBasis
 
